@@ -147,6 +147,7 @@ func (c *BindingManager) RemoveBinding(data model.BindingManagementDeleteCallTyp
 	if len(newBindingEntries) == len(c.bindingEntries) {
 		return errors.New("could not find requested binding to be removed")
 	}
+	verifYield("RemoveBinding.filtered")
 
 	c.bindingEntries = newBindingEntries
 
